@@ -121,21 +121,39 @@ class Crate:
             return self._cg
         g = {q: set() for q in self.fns}
 
+        def bound_names(node, out):
+            if isinstance(node, dict):
+                if node.get('k') == 'PIdent':
+                    out.add(node['name'])
+                for v in node.values():
+                    bound_names(v, out)
+            elif isinstance(node, list):
+                for v in node:
+                    bound_names(v, out)
+
         def scan(node, q, mod):
             if isinstance(node, dict):
                 if node.get('k') == 'Call' and node['func'].get('k') == 'Path':
-                    p = self.resolve(mod, node['func']['path']['segs'])
-                    if p in self.fns:
+                    segs = node['func']['path']['segs']
+                    p = self.resolve(mod, segs)
+                    if p in self.fns and not (len(segs) == 1 and segs[0] in locals_of[q]):
                         g[q].add(p)
                 if node.get('k') == 'Path' and 'path' in node:
-                    p = self.resolve(mod, node['path']['segs'])
-                    if p in self.fns:
+                    segs = node['path']['segs']
+                    p = self.resolve(mod, segs)
+                    if p in self.fns and not (len(segs) == 1 and segs[0] in locals_of[q]):
                         g[q].add(p)
                 for v in node.values():
                     scan(v, q, mod)
             elif isinstance(node, list):
                 for v in node:
                     scan(v, q, mod)
+        locals_of = {}
+        for q, f in self.fns.items():
+            names = set()
+            bound_names(f['body'], names)
+            bound_names(f['params'], names)
+            locals_of[q] = names
         for q, f in self.fns.items():
             scan(f['body'], q, f['mod'])
         self._cg = g
@@ -517,12 +535,30 @@ class Interp:
         return val
 
     # --- patterns ------------------------------------------------------------------------------------------------------
+    def pat_binds(self, pat):
+        k = pat['k']
+        if k == 'PIdent':
+            return not (pat['sub'] is None and self.is_variant_ident(pat['name']))
+        for key in ('elems', 'cases'):
+            if key in pat and any(self.pat_binds(p) for p in pat[key]):
+                return True
+        if k == 'PStruct':
+            return any(self.pat_binds(f['pat']) for f in pat['fields'])
+        return False
+
     def is_variant_ident(self, name):
         return name[:1].isupper() and name not in ('Self',)
 
     def bind(self, pat, scrut, env):
         """bind pattern variables, return the condition under which the pattern matches"""
         k = pat['k']
+        if scrut[0] == 'alt' and ((k == 'PTupleStruct' and pat['path']['segs'][-1] in ('Some', 'None')) or (k in ('PIdent', 'PPath') and
+                                                                                                        (pat.get('name') == 'None' or pat.get('path', {}).get('segs', [''])[-1] == 'None'))):
+            oc, ov = self.as_opt(scrut)
+            if oc is not None:
+                scrut = ('opt', oc, ov)
+        if scrut[0] == 'opt' and ((k == 'PIdent' and pat['name'] == 'None' and pat['sub'] is None) or (k == 'PPath' and pat['path']['segs'][-1] == 'None')):
+            return self.neg(scrut[1])
         if k == 'PIdent':
             if pat['sub'] is None and self.is_variant_ident(pat['name']) and pat['name'] not in env:
                 return ('is', scrut, self.c.resolve(self.frame['mod'], [pat['name']]))
@@ -539,7 +575,8 @@ class Interp:
             conds = [('is', scrut, v)]
             if v in ('Some', 'std::option::Option::Some', 'Option::Some') and scrut[0] == 'opt':
                 conds = [scrut[1]]
-                sub = [scrut[2]]
+                fp, fn_ = cond_facts(scrut[1])
+                sub = [prune(scrut[2], fp, fn_)]
             else:
                 sub = None
             for i, e in enumerate(pat['elems']):
@@ -840,7 +877,14 @@ class Interp:
         s = self.expr(e['expr'], env)
         arms = []
         prior = []
+        expanded = []
         for a in e['arms']:
+            if a['pat']['k'] == 'POr' and self.pat_binds(a['pat']):
+                for case in a['pat']['cases']:
+                    expanded.append({'pat': case, 'guard': a['guard'], 'body': a['body'], 'line': a['line'], 'k': 'Arm'})
+            else:
+                expanded.append(a)
+        for a in expanded:
             env2 = env.child()
             c = self.bind(a['pat'], s, env2)
             if a['guard'] is not None:
@@ -1215,6 +1259,10 @@ class Interp:
             return ('unwrap', recv)
         if m == 'ok':
             return recv
+        if m in ('is_some', 'is_none') and recv[0] == 'alt':
+            oc, ov = self.as_opt(recv)
+            if oc is not None:
+                recv = ('opt', oc, ov)
         if m == 'is_some':
             return recv[1] if recv[0] == 'opt' else ('t', ('is_some', recv))
         if m == 'is_none':
@@ -1234,6 +1282,25 @@ class Interp:
                 v = self.apply(self.expr(args_nodes[0], env), [])
                 return ('opt', self.as_cond(recv), v)
             return self.iter_method(m, recv, args_nodes, env, e)
+        if m == 'fold' and len(args_nodes) == 2:
+            init = self.expr(args_nodes[0], env)
+            fn = self.expr(args_nodes[1], env)
+            eid = self.fresh('e')
+            src, body, conds = self.as_pipeline(recv, eid)
+            accvar = ('accvar', eid, 'acc')
+            self.frame['loops'].append((eid, src, conds))
+            try:
+                # an accumulator that is a collection mutated in place and handed back: apply the closure to the collection itself so that the
+                # mutations are recorded on it (inside the loop); otherwise a genuine fold
+                probe_marks = (len(self.effects.get(self.frames[0]['fn'], [])),)
+                r = self.call_value(fn, [init if init[0] == 'new' else accvar, body])
+            finally:
+                self.frame['loops'].pop()
+            if init[0] == 'new' and r == init:
+                return init
+            if init[0] == 'new':
+                return ('mcall', recv, 'fold', [init, r])
+            return ('fold', src, eid, list(conds), init, accvar, r)
         args = [self.expr(a, env) for a in args_nodes]
         if m == 'unwrap_or':
             return self.unwrap_or(recv, args[0])
